@@ -55,8 +55,13 @@ mod enc;
 #[allow(dead_code)]
 #[path = "c07_subset/glyph.rs"]
 mod glyph;
+#[allow(dead_code)]
+#[path = "c07_subset/cffw.rs"]
+mod cffw;
 #[path = "c07_subset/ind.rs"]
 mod ind;
+#[path = "c07_subset/syn.rs"]
+mod syn;
 
 use glyph::{GlyphRec, Kind};
 use ind::Tables;
@@ -642,6 +647,10 @@ fn id_lists(n: usize, nhm: usize, composites: &[u16], cap: usize, big: usize, rn
     let n16 = n.min(65535) as u16;
     let k = rng.gen_range(2..=cap.min(n).max(2));
     lists.push((format!("first{}", k), (0..k.min(n) as u16).collect()));
+    if n <= 64 {
+        // the identity subset of a small font
+        lists.push(("all".into(), (0..n16).collect()));
+    }
     let step = rng.gen_range(2..9usize);
     lists.push((format!("every{}", step), (0..n).step_by(step).take(cap).map(|g| g as u16).collect()));
     // from the end, descending: old ids past numberOfHMetrics where the font has any, order reversed
@@ -736,6 +745,16 @@ fn record(seed: u64, tier: &str, out: &str) {
     let mut all = sources();
     // a seeded order, so that the per-kind samples differ from seed to seed
     all.shuffle(&mut rng);
+    // synthesized CFF-family fonts first: what the repository lacks (CFF2 with subroutines, several Font DICTs)
+    let syn: Vec<Source> = syn::fonts()
+        .into_iter()
+        .map(|f| {
+            let (kind, facts) = kind_of(&f.tables);
+            assert_eq!(kind, f.kind);
+            Source { label: format!("{}#0", f.label), file: f.file, member: 0, tables: f.tables, kind, facts }
+        })
+        .collect();
+    all.splice(0..0, syn);
     let mut per_kind_seen: BTreeMap<String, usize> = BTreeMap::new();
     let mut wrapped: BTreeMap<String, usize> = BTreeMap::new();
     for s in &all {
@@ -750,7 +769,13 @@ fn record(seed: u64, tier: &str, out: &str) {
             continue;
         }
         // the ~200 fonts of tests/aots share one glyph set (100 glyphs, one long metric): a seeded handful of them
-        let class = if s.label.starts_with("aots/") { format!("aots-{}", s.kind) } else { s.kind.clone() };
+        let class = if s.label.starts_with("aots/") {
+            format!("aots-{}", s.kind)
+        } else if s.label.starts_with("syn/") {
+            format!("syn-{}", s.kind)
+        } else {
+            s.kind.clone()
+        };
         let seen = per_kind_seen.entry(class.clone()).or_default();
         *seen += 1;
         if class.starts_with("aots-") && *seen > (if quick { 3 } else { 10 }) {
@@ -760,10 +785,11 @@ fn record(seed: u64, tier: &str, out: &str) {
         if quick && class == "glyf" && *seen > 26 {
             continue;
         }
-        rec.bump(&format!("fonts:{}", s.kind), 1);
+        let fk = if class.starts_with("syn-") { class.clone() } else { s.kind.clone() };
+        rec.bump(&format!("fonts:{}", fk), 1);
         if let Some(f) = &s.facts {
             if f.global_subrs > 0 || f.local_subr_indices > 0 {
-                rec.bump(&format!("fonts:{}_with_subroutines", s.kind), 1);
+                rec.bump(&format!("fonts:{}_with_subroutines", fk), 1);
             }
         }
         let composites: Vec<u16> = (0..src.n.min(65535) as u16).filter(|&g| !src.comps(g).is_empty()).collect();
@@ -784,10 +810,10 @@ fn record(seed: u64, tier: &str, out: &str) {
         } else {
             vec!["prince:unrestricted:t1", "prince:unrestricted:cid"]
         };
-        let pick: Vec<(String, Vec<u16>)> = lists.iter().filter(|l| l.0.starts_with("random")).cloned().collect();
+        let pick: Vec<(String, Vec<u16>)> = lists.iter().filter(|l| l.0.starts_with("random") || l.0 == "all").cloned().collect();
         run_source(&mut rec, &s.label, "otf", &s.kind, &prov, &src, &pick, &prince_apis);
         // re-wrapped as WOFF and WOFF2 (a sample per kind): the source of truth stays the OpenType file
-        let w = wrapped.entry(s.kind.clone()).or_default();
+        let w = wrapped.entry(class.clone()).or_default();
         let limit = if quick { 3 } else { 8 };
         if *w < limit && s.tables.map.values().map(|v| v.len()).sum::<usize>() < 6_000_000 {
             *w += 1;
@@ -866,12 +892,40 @@ fn probe() {
     }
 }
 
+/// Reproduction aid: subset a synthesized font and print the converted charstrings.
+fn dump_syn(label: &str, ids: &[u16]) {
+    for f in syn::fonts() {
+        if f.label != label {
+            continue;
+        }
+        let fd = ReadScope::new(&f.file).read::<FontData<'_>>().expect("FontData");
+        let prov = fd.table_provider(0).expect("provider");
+        println!("source: {} glyphs, outlines of the requested glyphs: {}", f.tables.num_glyphs().unwrap_or(0), json!(visit_many(&prov, ids)));
+        match guarded(|| subset(&prov, ids)) {
+            Outcome::Returned(Ok(out)) => {
+                let t = Tables::from_sfnt(&out, 0).expect("sfnt");
+                let cff = t.get("CFF ").expect("CFF table in the output");
+                println!("output facts: {:?}", ind::cff_facts(cff));
+                for (n, _) in ids.iter().enumerate() {
+                    println!("charstring {}: {:?}", n, ind::cff_charstring(cff, n).map(|b| vh::util::hex(&b)));
+                }
+                let ofd = ReadScope::new(&out).read::<FontData<'_>>().expect("FontData");
+                let news: Vec<u16> = (0..ids.len() as u16).collect();
+                println!("output outlines: {}", json!(visit_many(&ofd.table_provider(0).expect("provider"), &news)));
+            }
+            Outcome::Returned(Err(e)) => println!("subset: Err({:?})", e),
+            Outcome::Panicked(m) => println!("subset: panic {}", m),
+        }
+    }
+}
+
 fn main() {
     let args: Vec<String> = std::env::args().collect();
     match args.get(1).map(|s| s.as_str()) {
         Some("replay") => replay(&args[2], &args[3], &args[4], args[5].parse().expect("every")),
         Some("record") => record(args[2].parse().expect("seed"), &args[3], &args[4]),
         Some("probe") => probe(),
+        Some("dump-syn") => dump_syn(&args[2], &args[3].split(',').map(|x| x.parse().expect("id")).collect::<Vec<u16>>()),
         _ => {
             eprintln!("usage: c07_subset replay <cases> <mismatches> <trace> <every> | record <seed> <quick|thorough> <trace> | probe");
             std::process::exit(2);
